@@ -112,9 +112,11 @@ def gen_asi_tokens():
     # in Model/Asi.v is written for exactly this conjunction)
     nl = char_arm(scan, "\\n")
     cond = re.sub(r"\s+", "", nl)
-    if "ifself.pending_semicolon&&self.nesting_depth==0&&!self.next_token_is_else()" not in cond:
-        raise extract.ExtractError("the newline arm of scan_token no longer has the form "
-                                   "`pending_semicolon && nesting_depth == 0 && !next_token_is_else()`")
+    mc = re.search(r"if(.*?)\{", cond)
+    conj = set(mc.group(1).split("&&")) if mc else set()
+    if conj != {"self.pending_semicolon", "self.nesting_depth==0", "!self.next_token_is_else()"}:
+        raise extract.ExtractError("the newline arm of scan_token is no longer the conjunction of "
+                                   "pending_semicolon, nesting_depth == 0, !next_token_is_else() (found: %s)" % sorted(conj))
     cur = extract.strip_comments(fn_body(extract.rd("frontend/src/lexer/scanner/cursor.rs"), "next_token_is_else"))
     skipped = re.findall(r"c\s*==\s*'(\\?.)'", cur)
     sk = sorted(set(skipped))
